@@ -423,6 +423,19 @@ pub fn sweep(ctx: &Ctx, rep: &Report, v: &dyn Visitor, want_registers: bool) -> 
             }
         });
     }
+    // every pair of boundary codes of the two components (both zero, both one, sign bit with magnitude 0 or 1, ...)
+    for st in [1u8, 2] {
+        let ext = [0u16, 1, 2, 3, 1022, 1023, 1024, 1025, 1026, 2046, 2047];
+        for a in ext {
+            for b in ext {
+                for vr in [0u16, 1, 511] {
+                    let me = me_bds09_gs(st, 0, 0, 0, (a >> 10) as u8, a & 0x3ff, (b >> 10) as u8, b & 0x3ff, 0, 0, vr, 0, 5);
+                    visit_frame(v, &c, "velocity:ground", &df17(5, addr, &me, 0));
+                    visit_frame(v, &c, "velocity:ground", &df18(2, addr, &me, 0));
+                }
+            }
+        }
+    }
     for st in [3u8, 4] {
         par_ranges(ctx.threads, 2048, 64, |lo, hi| {
             for h in lo..hi {
@@ -600,6 +613,21 @@ pub fn mb45(x: u32) -> [u8; 7] {
 
 fn joint<F: Fn(u32, u32) -> [u8; 7] + Sync>(ctx: &Ctx, na: u32, nb: u32, step: u32, build: F, name: &str, v: &dyn Visitor, c: &Counts) {
     let step = step.max(1);
+    // every pair of boundary codes of the two fields
+    {
+        let ext = |n: u32| -> Vec<u32> {
+            let mut v = vec![0, 1, 2, n / 2 - n.min(2) / 2, n / 2, (n / 2 + 1).min(n - 1), n.saturating_sub(2), n - 1];
+            v.retain(|x| *x < n);
+            v.sort();
+            v.dedup();
+            v
+        };
+        for a in ext(na) {
+            for b in ext(nb) {
+                visit_reg(v, c, name, &build(a, b));
+            }
+        }
+    }
     // the same domain inside whole DF20 / DF21 replies under every flight status (the header is context for the
     // register readers: alert / SPI / on-ground), on a grid eight times coarser
     let fstep = (step * 8).max(if ctx.thorough() && ctx.plain() { 8 } else { 64 });
